@@ -86,6 +86,10 @@ P = {
   "All operation histories up to depth 4 (quick) / 5 (thorough) over a two-package world with 2-3 source variants per module are replayed against the real fast-check transform with one shared cache (cold, warm, stale entries arise along the history); after each operation all-or-nothing per package is checked with and without the cache, recorded dependencies of every emitted module are compared with a re-analysis of the emitted text, the with-cache result is compared with the cache-less one, and two cache-less runs are compared.",
   "One hand-built world (5 modules, 14 variants); workspace members and fast_check_dts are outside it. Each operation rebuilds the graph from the current sources.",
   "DESIGN.md §4 C12", TECH + "; exhaustive operation histories over source variants with a shared cache, differential oracle against cache-less runs"),
+ "C16": (True,
+  "ALL star re-export graphs over 3 (quick) / 4 (thorough) modules x own-export assignments are built and the resolved export set of every module is compared with the least fixpoint the ES rules define (own names first, default never re-exported by star, cycles terminate under the watchdog); the symbol tables of the generated C09 packages (incl. dotted namespaces, merged declarations, overloads, expando, class members) and of the symbol spec corpus are checked to be trees consistent with their parent pointers, with sound declaration names / ranges / ids, and go-to-definition is run from every symbol.",
+  "Tree conditions are the repository's own spec-helper conditions plus parent-pointer agreement. Termination is decided by the per-run watchdog (non-termination would be reported as a violation).",
+  "DESIGN.md §4 C16", TECH + "; complete enumeration of star re-export graphs + deviation-bounded generated packages + corpus"),
 }
 
 ALL = ["C%02d" % i for i in range(1, 21)]
